@@ -41,7 +41,13 @@ fn bind_block(binder: &mut FlowBinder, block: LuaBlock, current: FlowId) -> Flow
 
         if let Some(flow_node) = binder.get_flow(return_flow_id) {
             match &flow_node.kind {
-                FlowNodeKind::Return | FlowNodeKind::Break | FlowNodeKind::Continue => {
+                // `Unreachable`: a nested statement (`do return end`, an `if` whose branches all
+                // leave, an endless loop) already ended the flow; the rest of the block is dead and
+                // must not start a new flow that would leak into the code after the block.
+                FlowNodeKind::Return
+                | FlowNodeKind::Break
+                | FlowNodeKind::Continue
+                | FlowNodeKind::Unreachable => {
                     return_flow_id = binder.unreachable;
                     can_change_flow = false;
                 }
